@@ -245,11 +245,54 @@ def main(tier, seed):
                 break
     res.bounds["length_sweep"] = "every length 0..1100 plus 4095-4097, 65535-65537, 70000"
 
+    # (7) call histories: crc7 must be a function of its argument alone.  Every sequence of calls over a small family of
+    # related messages (prefixes / extensions / one-byte differences of each other) is run on a freshly re-loaded module,
+    # so that hidden module-level state (memo tables, resume caches) starts empty for every sequence.
+    import importlib
+    import robotpy_ext.misc.crc7 as crcmod
+
+    fam = [b"", b"\x01", b"\x02", b"\x01\x02", b"\x01\x03", b"\x01\x02\x03", b"\x01\x02\x04", b"\x01\x02\x03\x04", b"\xff\x00"]
+    want = [serial(m) for m in fam]
+    seq_len = 4 if tier == "quick" else 5
+    nseq = 0
+    bad = False
+    for seq in itertools.product(range(len(fam)), repeat=seq_len):
+        mod = importlib.reload(crcmod)
+        nseq += 1
+        for pos, i in enumerate(seq):
+            res.executions += 1
+            try:
+                got = mod.crc7(bytearray(fam[i]) if (pos + i) % 2 else fam[i])
+            except Exception as e:  # noqa
+                got = f"{type(e).__name__}: {e}"
+            if got != want[i]:
+                res.violation("result-depends-on-call-history", f"after the calls {[list(fam[j]) for j in seq[:pos]]} crc7({list(fam[i])}) = {got}, expected {want[i]}", dict(kind="call-sequence", calls=[list(fam[j]) for j in seq[: pos + 1]]))
+                bad = True
+                break
+        res.checks += 1
+        if bad:
+            break
+    # many distinct messages, then every one of them again (bounded memo tables)
+    for n in range(1, 41):
+        mod = importlib.reload(crcmod)
+        msgs = [bytes(((k * 7 + j * 13 + 1) & 0xFF) for j in range(1 + k % 5)) for k in range(n)]
+        for rnd in (0, 1, 2):
+            for m in msgs:
+                res.executions += 1
+                got = mod.crc7(m)
+                if got != serial(m):
+                    res.violation("result-depends-on-call-history", f"{n} distinct messages, round {rnd}: crc7({list(m)}) = {got}, expected {serial(m)}", dict(kind="call-sequence", calls=[list(x) for x in msgs] * (rnd + 1)))
+                    break
+        res.checks += 1
+    importlib.reload(crcmod)
+    res.bounds["call_sequence_length"] = seq_len
+    res.bounds["call_sequences"] = nseq
+
     # determinism: the same messages again
     for s in (1, 64, 127):
         m = rep[s] + (s,)
         if call(m) != call(m):
-            raise core.HarnessError("crc7 is not deterministic")
+            res.violation("result-depends-on-call-history", f"two calls of crc7({list(m)}) gave different results", dict(kind="message", message=list(m)))
         res.determinism_reruns += 1
 
     rule = (
@@ -274,6 +317,17 @@ def replay(path):
         m = bytes(r["message"])
         print(f"crc7({list(m)}) = {crc7(m)}; bit-serial reference = {serial(m)}")
         return 0 if crc7(m) == serial(m) else 1
+    if r.get("kind") == "call-sequence":
+        import importlib
+        import robotpy_ext.misc.crc7 as crcmod
+
+        mod = importlib.reload(crcmod)
+        ok = True
+        for m in r["calls"]:
+            got = mod.crc7(bytes(m))
+            print(f"crc7({m}) = {got}; bit-serial reference = {serial(bytes(m))}")
+            ok = ok and got == serial(bytes(m))
+        return 0 if ok else 1
     if r.get("kind") == "error-pattern":
         base = bytearray(r["base"])
         m = bytearray(base)
